@@ -52,6 +52,10 @@ class Contract:
         """pre-existing heap items (Obj / NpCell / PyList / PyDict / SDict) the function may write"""
         return []
 
+    def must_not_return(self, variant):
+        """variants whose every path is expected to raise (no vacuity cover expected)"""
+        return False
+
     def all_props(self):
         out = set(self.default_tags)
         for v in self.tags.values():
@@ -285,6 +289,9 @@ def verify_contract(repo, c, variant, policy=None, path_timeout_ms=2000, max_pat
                 stats["calls"].add((kind_, q))
             ok = c.allowed_exception(I, S, e)
             label = f"raises:{e.kind}"
+            if ok is True and hasattr(c, "expected_exception_label"):
+                lab = c.expected_exception_label(S)
+                ctx.oblige(f"{c.qualname}:post:{lab}", z3.BoolVal(True), kind="post", info=tagsof(lab))
             if ok is not True:
                 inf = tagsof("raises")
                 inf["where"] = f"{e.where or ''}:{e.lineno}"
